@@ -36,6 +36,7 @@
 import DateutilVerif.Proofs.CacheGlobal
 import DateutilVerif.Model.CacheNested
 import DateutilVerif.Proofs.CacheNestedStep
+import DateutilVerif.Proofs.CacheNestedInit
 
 namespace C11
 open Cache Queries
@@ -245,6 +246,19 @@ theorem nested_all_complete_partial {ns0 ns : Nested.NState} (h0 : Nested.Fresh 
     obtain ⟨_, hl⟩ := (hi.minv m M hM).linv t it hit
     rw [hd] at hl
     exact hl.2.2 hsorted hfits
+
+/-- **`Nested.init` is fresh**: the theorems above start from the state the driver builds — any member
+    sequences, any sets over them (members shared between sets and roles), any runners. -/
+theorem nested_init_fresh (memberSrcs : List (List Int)) (setDefs : List (List Nested.Slot × List Nested.Slot))
+    (qs : List (Nat × Query)) : Nested.Fresh (Nested.init memberSrcs setDefs qs false).1 :=
+  Nested.fresh_init memberSrcs setDefs qs
+
+/-- `nested_no_deadlock_partial` from `init` -/
+theorem nested_no_deadlock_init (memberSrcs : List (List Int)) (setDefs : List (List Nested.Slot × List Nested.Slot))
+    (qs : List (Nat × Query)) {ns : Nested.NState} (h : Nested.NReach (Nested.init memberSrcs setDefs qs false).1 ns)
+    (hun : ∃ r, Nested.IsRunner ns r ∧ Nested.finished ns r = false) :
+    ∃ r, Nested.IsRunner ns r ∧ (Nested.step ns r).isSome = true :=
+  nested_no_deadlock_partial (nested_init_fresh memberSrcs setDefs qs) h hun
 
 def nestedOwn := Nested.init [[0, 10, 20]] [([.cached 0], [])] [(1, .iterAll)] false
 def nestedShared := Nested.init [[0, 10, 20]] [([.cached 0], [])] [(1, .iterAll)] true
